@@ -123,7 +123,36 @@ def c05_key(aid, events, outs):
 C05_ASSUME = ["the emitted guard text is read back through the four statement forms writeTypeConversion emits today (`src > limits<T>::max()`, `src < limits<T>::lowest()`, `src < 0`, throw)",
               "C++ integer comparison/`numeric_limits` semantics transcribed as 64-bit arithmetic in the harness; static_cast of an in-range value preserves it"]
 
+def c07_key(aid, events, outs):
+    m = {e["name"]: e["value"] for e in events}
+    if any(k.endswith("from-end") for k in m):
+        return "c07:long-protocol-state-wraps"
+    return "c07:%s" % aid
+
+
+C07_ASSUME = ["the emitted method bodies are read back through the statement forms the emitter produces today (if (unlikely(state_ != c)), if (state_ == c), state_ = c;, "
+              "...InvalidState(...), return ..., Impl calls); any other form fails the only-known-statement-forms obligation",
+              "C++ semantics of the unsigned state_ member (width read from the emitted declaration) transcribed in the harness; Impl results are arbitrary booleans"]
+PYG = "py_generated"
+
 PARTS = {
+    "C07": [
+        (PYG, "c07_py_protocols", dict()),
+        (G, "gosym_part", dict(name="c07_cpp_writer", entry="internal/zzverif.C07CppWriter", args_quick=(3, 0), args_thorough=(5, 0), key_fn=c07_key,
+                               required_sites=("raises-iff-out-of-order", "impl-called-iff-accepted", "post-state-is-next-step", "only-known-statement-forms"), assumptions=C07_ASSUME,
+                               desc="cpp/protocols.writeDefinitions on every stream/non-stream pattern of n steps (symbolic flags); one-step simulation of each emitted writer method "
+                                    "(Write, batch Write, End, Close) from an arbitrary reachable state against the declaration-order automaton")),
+        (G, "gosym_part", dict(name="c07_cpp_reader", entry="internal/zzverif.C07CppReader", args_quick=(3, 0), args_thorough=(5, 0), key_fn=c07_key,
+                               required_sites=("raises-iff-out-of-order", "impl-called-iff-accepted", "stream-end-observed", "batch-end-recorded-as-unobserved",
+                                               "ended-stream-reports-end-without-reading", "only-known-statement-forms"), assumptions=C07_ASSUME,
+                               desc="same for the reader (single and batch Read overloads, Close), including the 'batch read hit the end, completion not yet observed' states")),
+        (G, "gosym_part", dict(name="c07_cpp_writer_long", entry="internal/zzverif.C07CppWriter", args_quick=(256, 2), args_thorough=(257, 2), key_fn=c07_key,
+                               required_sites=("raises-iff-out-of-order",), assumptions=C07_ASSUME,
+                               desc="writer of a 256-step protocol, last steps and Close (state member must not wrap)")),
+        (G, "gosym_part", dict(name="c07_cpp_reader_long", entry="internal/zzverif.C07CppReader", args_quick=(128, 1), args_thorough=(129, 1), key_fn=c07_key, tiers=("thorough",),
+                               required_sites=("raises-iff-out-of-order",), assumptions=C07_ASSUME,
+                               desc="reader of a 128-step all-stream protocol, last steps and Close")),
+    ],
     "C05": [
         (G, "gosym_part", dict(name="c05_int_conversion_read", entry="internal/zzverif.C05IntConversion", args_quick=(0,), args_thorough=(0,), key_fn=c05_key,
                                required_sites=("no-silent-wrap", "no-spurious-overflow-error", "guard-throws", "assigns-static-cast-to-target"), assumptions=C05_ASSUME,
@@ -134,6 +163,7 @@ PARTS = {
                                desc="same for the write direction (writing a value of the current type to a previous version)")),
     ],
     "C19": [
+        (PYG, "c19_py_computed", dict()),
         (G, "gosym_part", dict(name="c19_static_types", entry="internal/zzverif.C19Types",
                                required_sites=("accept-reject-independent-of-operand-order", "type-independent-of-operand-order", "integer-power-is-float64", "result-kind-is-widest-operand-kind"),
                                assumptions=["documented rule used: `**` on integers yields float64 (docs/*/language.md); otherwise the result kind is the widest operand kind "
@@ -166,7 +196,9 @@ PARTS = {
     ],
     "C01": [
         (CC, "c01_cc_kernels", dict()),
+        (CC, "c01_cc_serializers", dict(tiers=("thorough",))),
         (PY, "c01_py_kernels", dict()),
+        (PYG, "c01_py_generated", dict()),
         C14_PART,
     ],
     "C03": [
@@ -180,6 +212,7 @@ PARTS = {
     ],
     "C17": [
         (CC, "c17_cc_blocks", dict()),
+        (CC, "c17_cc_reuse", dict()),
         (PY, "c17_py_batching", dict()),
     ],
     "C15": [
@@ -278,11 +311,20 @@ NOTES = ("Every claim is bounded: 'holds' means unsat within the stated bound. E
 NOT_APPLICABLE = {}
 
 CLAIMS = {
+    "C07": dict(engine="pysym+gosym",
+                text="(pysym) the generated Python protocols.py for every stream/non-stream pattern of length 1..3 (4 thorough), run on symbolic proxies: one-step inductive simulation "
+                     "from an arbitrary _state against the declaration-order automaton for an arbitrary API call (write/read/close/__exit__, iterable obtained/consumed/abandoned). "
+                     "(gosym) the C++ protocol emitter's state checks for every pattern of 3 (5) steps read back as guarded commands and simulated the same way, plus 256/128-step "
+                     "protocols for the width of the state member. One genuine defect (8-bit state) was repaired (fix: 3cb2501).",
+                note="Generated C++ is checked at emitter level through a recogniser of today's statement forms, not compiled; MATLAB *Base.m and CopyTo are outside; call histories of "
+                     "any length are covered by the inductive step, protocol shapes only up to the stated lengths."),
     "C05": dict(text="Bounded symbolic execution (gosym) of the C++ conversion emitter for accepted integer->integer changes, in both directions: for a symbolic type pair and "
                      "a symbolic 64-bit value of the source type, the emitted guard throws exactly when the value does not fit the target type (no silent wrap, no spurious error).",
                 note="Emitter level only: generated C++ cannot be compiled or executed here. Float/complex/string conversions, record field add/remove/reorder plans, union/optional "
                      "changes, protocol-step switches and version chains are not covered yet (DESIGN C05)."),
-    "C19": dict(text="Bounded symbolic execution (gosym) of computed-field type inference on `a op b` vs `b op a` for every ordered pair of the 13 numeric primitive types "
+    "C19": dict(engine="gosym+pysym", text="(pysym) the generated Python computed-field methods of a model with +,-,*,/,**, unary minus, nested and parenthesised expressions and size(), evaluated on "
+                     "symbolic integer fields over the full range of their types against the exact (C++-semantics) value whenever it is in range of the static type. Two genuine defects were "
+                     "repaired (fix: 8cd10c6, 0b84462); integer floor-vs-truncate division is a recorded known finding. Bounded symbolic execution (gosym) of computed-field type inference on `a op b` vs `b op a` for every ordered pair of the 13 numeric primitive types "
                      "(symbolic, solver-decided) and every operator: verdict and static type are symmetric, `**` on integers is float64, result kind = widest operand kind.",
                 note="Static typing only so far; agreement of the three expression emitters and of host-language operator semantics (e.g. Python // vs C++ /) is a separate part "
                      "(see DESIGN: F6) and nested expressions / switch typing are not covered."),
